@@ -250,14 +250,38 @@ pub fn main_partial_random() {
                 ONode::new("Sub", &["r", "k"], &["y"]),
             ],
         ),
+        (
+            // 1 x 4 log-probabilities, 48 draws: three identical runs are (1/4)^96-improbable
+            "Multinomial",
+            vec![
+                ONode::new("Multinomial", &["logits"], &["r"]).attr("sample_size", Attr::Int(48)),
+                ONode::new("Cast", &["r"], &["rf"]).attr("to", Attr::Int(onnx::FLOAT as i64)),
+                ONode::new("Neg", &["rf"], &["y"]),
+            ],
+        ),
+        (
+            // unseeded Dropout in training mode draws a fresh mask per evaluation (64 elements, ratio 0.5)
+            "Dropout_training",
+            vec![
+                ONode::new("Dropout", &["kb", "ratio", "train"], &["r"]),
+                ONode::new("Neg", &["r"], &["y"]),
+            ],
+        ),
+    ];
+    let extra_consts = vec![
+        OTensor { name: "logits".into(), dims: vec![1, 4], data: TensorData::F32(vec![0.0; 4]) },
+        OTensor { name: "kb".into(), dims: vec![64], data: TensorData::F32((1..=64).map(|v| v as f32).collect()) },
+        OTensor { name: "ratio".into(), dims: vec![], data: TensorData::F32(vec![0.5]) },
+        OTensor { name: "train".into(), dims: vec![], data: TensorData::Bool(vec![true]) },
     ];
     for (name, nodes) in variants {
         for optimize in [false, true] {
             let mut g = OGraph::default();
             g.nodes = nodes.clone();
             g.initializers = vec![konst.clone()];
+            g.initializers.extend(extra_consts.iter().cloned());
             g.inputs = vec![ValueInfo::fixed("x", onnx::FLOAT, &[4])];
-            g.outputs = vec![ValueInfo::fixed("y", onnx::FLOAT, &[4])];
+            g.outputs = vec![ValueInfo::new("y", onnx::FLOAT, None)];
             let mut opts = rten::ModelOptions::with_all_ops();
             opts.enable_optimization(optimize);
             let res = vcommon::guarded(|| {
@@ -283,7 +307,7 @@ pub fn main_partial_random() {
                 Ok(Ok((runs, part_names))) => {
                     json!({"ev": "random", "op": name, "optimize": optimize, "kind": "ok",
                            "run1_eq_run2": runs[0] == runs[1], "run2_eq_run3": runs[1] == runs[2],
-                           "partial_returned_random": part_names.iter().any(|n| n == "r" || n == "y"), "msg": ""})
+                           "partial_returned_random": part_names.iter().any(|n| n == "r" || n == "rf" || n == "y"), "msg": ""})
                 }
                 Ok(Err(m)) => json!({"ev": "random", "op": name, "optimize": optimize, "kind": "err",
                                       "run1_eq_run2": false, "run2_eq_run3": false, "partial_returned_random": false,
